@@ -352,6 +352,83 @@ example : (0 : Rat) < 1 / 8192 ∧
   rw [(C12_similarity_sign _ (1 / 8192 : Rat) (by norm_num) ⟨523456, 4123456, 123⟩ ⟨0,0,1⟩ ⟨1,0,1⟩ ⟨1,1,1⟩ ⟨0,1,1⟩).2]
   norm_num [signOf, signDot, normalDir, quadCrossC, vsum, V3.dot, V3.sub, V3.add, V3.smul, V3.cross]
 
+/-! ## affine maps: the model is blind to aspect ratio and grading
+
+A thin layer is the image of an ordinary layer under the stretch `diag(1, 1, τ)`, every cell of a graded tensor grid is an affine
+image of the unit cube. Under an affine map `x ↦ A·x + t` the un-normalised normal transforms with the cofactor matrix and the
+quantity whose sign the code takes is multiplied by `det A`: for `det A > 0` the computed sign is unchanged, for EVERY `τ > 0` and
+every size ratio. So in exact arithmetic a cell of thickness `10⁻⁹` of the model extent, or a cell `10⁶` times smaller than its
+neighbour, gets the signs of the unit cell; whatever the real code does differently there (positions stored in single precision, a
+clamp relative to the largest facet of the batch) is a floating-point effect that the exact model cannot see - which is why the
+harness stream `extreme-geometry` judges the real code by an exact integer reference and ties only facets / incidence / signs to
+the model. -/
+
+/-- the affine map `x ↦ A·x + t`, `A` given by its rows `r1 r2 r3` -/
+def affMap (r1 r2 r3 t p : V3 R) : V3 R := V3.add ⟨dot r1 p, dot r2 p, dot r3 p⟩ t
+
+/-- the cofactor matrix of `A` applied to `n` (`cof(A)·(u × v) = (A·u) × (A·v)`) -/
+def cofMap (r1 r2 r3 n : V3 R) : V3 R := ⟨dot (cross r2 r3) n, dot (cross r3 r1) n, dot (cross r1 r2) n⟩
+
+omit [LinearOrder R] [IsStrictOrderedRing R] in
+/-- under `x ↦ A·x + t` the un-normalised normal the code computes is mapped by the cofactor matrix (triangles and quadrilaterals) -/
+theorem normalDir_affMap (r1 r2 r3 t a b c d : V3 R) :
+    normalDir ([a, b, c].map (affMap r1 r2 r3 t)) = cofMap r1 r2 r3 (normalDir [a, b, c]) ∧
+    normalDir ([a, b, c, d].map (affMap r1 r2 r3 t)) = cofMap r1 r2 r3 (normalDir [a, b, c, d]) := by
+  constructor <;>
+    simp only [List.map, affMap, cofMap, normalDir, triCross, quadCrossC, V3.cross, V3.sub, V3.add, V3.smul, V3.dot,
+      Nat.cast_ofNat] <;> congr 1 <;> ring
+
+omit [LinearOrder R] [IsStrictOrderedRing R] in
+theorem sum_dot_affMap (l : List (V3 R)) (r1 r2 r3 t n : V3 R) :
+    ((l.map (affMap r1 r2 r3 t)).map fun q => dot q (cofMap r1 r2 r3 n)).sum
+      = det r1 r2 r3 * (l.map fun q => dot q n).sum + (l.length : R) * dot t (cofMap r1 r2 r3 n) := by
+  induction l with
+  | nil => simp
+  | cons a l ih =>
+    simp only [List.map_cons, List.sum_cons, List.length_cons, ih, Nat.cast_succ]
+    simp only [affMap, cofMap, V3.dot, V3.add, V3.smul, V3.cross, V3.det]; ring
+
+/-- the sign quantity of a (cell, facet) pair is multiplied by `det A` when cell, facet and normal are mapped by `x ↦ A·x + t` -/
+theorem signDot_affMap (cellPts facetPts : List (V3 R)) (r1 r2 r3 t n : V3 R) :
+    signDot (cellPts.map (affMap r1 r2 r3 t)) (facetPts.map (affMap r1 r2 r3 t)) (cofMap r1 r2 r3 n)
+      = det r1 r2 r3 * signDot cellPts facetPts n := by
+  rw [signDot_eq, signDot_eq, sum_dot_affMap, sum_dot_affMap, List.length_map, List.length_map]
+  ring
+
+/-- **C12_affine_sign.** For `det A > 0` the sign the code computes for a (cell, triangular or quadrilateral facet) pair is unchanged
+    by `x ↦ A·x + t` (any cell type, any coordinates): in particular by the stretch `diag(1, 1, τ)` for every `τ > 0` (thin layers)
+    and by the map that takes the unit cube to any cell of a graded tensor grid. -/
+theorem C12_affine_sign (cellPts : List (V3 R)) (r1 r2 r3 : V3 R) (hdet : 0 < det r1 r2 r3) (t a b c d : V3 R) :
+    signOf (cellPts.map (affMap r1 r2 r3 t)) ([a, b, c].map (affMap r1 r2 r3 t)) = signOf cellPts [a, b, c] ∧
+    signOf (cellPts.map (affMap r1 r2 r3 t)) ([a, b, c, d].map (affMap r1 r2 r3 t)) = signOf cellPts [a, b, c, d] := by
+  obtain ⟨h3, h4⟩ := normalDir_affMap r1 r2 r3 t a b c d
+  have key : ∀ x : R, (det r1 r2 r3 * x < ((0 : Nat) : R)) ↔ (x < ((0 : Nat) : R)) := by
+    intro x
+    simp only [Nat.cast_zero]
+    constructor
+    · intro h
+      by_contra hx
+      have : 0 ≤ det r1 r2 r3 * x := mul_nonneg hdet.le (not_lt.mp hx)
+      linarith
+    · intro h; exact mul_neg_of_pos_of_neg hdet h
+  constructor
+  · unfold signOf
+    rw [h3, signDot_affMap]
+    simp only [key]
+  · unfold signOf
+    rw [h4, signDot_affMap]
+    simp only [key]
+
+/-- non-vacuity: a coating of thickness `10⁻⁹` (stretch `diag(1, 1, 10⁻⁹)`, offset) - the top face of the thin cell keeps its `+1` -/
+example : (0 : Rat) < det (⟨1, 0, 0⟩ : V3 Rat) ⟨0, 1, 0⟩ ⟨0, 0, 1 / 1000000000⟩ ∧
+    signOf ([⟨0,0,0⟩, ⟨1,0,0⟩, ⟨1,1,0⟩, ⟨0,1,0⟩, ⟨0,0,1⟩, ⟨1,0,1⟩, ⟨1,1,1⟩, ⟨0,1,1⟩].map
+        (affMap (⟨1, 0, 0⟩ : V3 Rat) ⟨0, 1, 0⟩ ⟨0, 0, 1 / 1000000000⟩ ⟨3, -2, 1⟩))
+      ([⟨0,0,1⟩, ⟨1,0,1⟩, ⟨1,1,1⟩, ⟨0,1,1⟩].map (affMap (⟨1, 0, 0⟩ : V3 Rat) ⟨0, 1, 0⟩ ⟨0, 0, 1 / 1000000000⟩ ⟨3, -2, 1⟩)) = 1 := by
+  refine ⟨by norm_num [V3.det], ?_⟩
+  rw [(C12_affine_sign _ (⟨1, 0, 0⟩ : V3 Rat) ⟨0, 1, 0⟩ ⟨0, 0, 1 / 1000000000⟩ (by norm_num [V3.det]) ⟨3, -2, 1⟩
+    ⟨0,0,1⟩ ⟨1,0,1⟩ ⟨1,1,1⟩ ⟨0,1,1⟩).2]
+  norm_num [signOf, signDot, normalDir, quadCrossC, vsum, V3.dot, V3.sub, V3.add, V3.smul, V3.cross]
+
 end Signs
 
 /-! ## metric identities -/
